@@ -24,22 +24,26 @@ vp_u128 vp_mul64x64(uint64_t a, uint64_t b)
   if (vp_mn < VP_MULTAB) { vp_ma[vp_mn] = a; vp_mb[vp_mn] = b; vp_mt[vp_mn] = t; vp_mn++; }
   return t;
 }
-/* q = a / b, r = a % b with the defining identity routed through the same table:
-   q * b + r == a, r < b */
-uint64_t vp_udiv64(uint64_t a, uint64_t b)
+/* q = a / b, r = a % b are introduced by their defining identity q*b + r == a, r < b
+   (unique for b != 0; the translator asserts b != 0 before every call), with the
+   product routed through the lemma table -- no divider circuit is built.  A second
+   table makes a / b and a % b on the same operands share q and r. */
+uint64_t nondet_u64(void);
+static uint64_t vp_da[VP_MULTAB], vp_db[VP_MULTAB], vp_dq[VP_MULTAB], vp_dr[VP_MULTAB];
+static unsigned vp_dn;
+static void vp_divrem64(uint64_t a, uint64_t b, uint64_t *q, uint64_t *r)
 {
-  uint64_t q = a / b, r = a % b;
-  vp_u128 t = vp_mul64x64(q, b);
-  __CPROVER_assume(t + r == (vp_u128)a && r < b);   /* true by definition of / and % */
-  return q;
+  uint64_t qq = nondet_u64(), rr = nondet_u64();
+  for (unsigned j = 0; j < VP_MULTAB; ++j)
+    if (j < vp_dn && a == vp_da[j] && b == vp_db[j])
+      __CPROVER_assume(qq == vp_dq[j] && rr == vp_dr[j]);
+  vp_u128 t = vp_mul64x64(qq, b);
+  __CPROVER_assume(t + rr == (vp_u128)a && rr < b);
+  if (vp_dn < VP_MULTAB) { vp_da[vp_dn] = a; vp_db[vp_dn] = b; vp_dq[vp_dn] = qq; vp_dr[vp_dn] = rr; vp_dn++; }
+  *q = qq; *r = rr;
 }
-uint64_t vp_urem64(uint64_t a, uint64_t b)
-{
-  uint64_t q = a / b, r = a % b;
-  vp_u128 t = vp_mul64x64(q, b);
-  __CPROVER_assume(t + r == (vp_u128)a && r < b);
-  return r;
-}
+uint64_t vp_udiv64(uint64_t a, uint64_t b) { uint64_t q, r; vp_divrem64(a, b, &q, &r); return q; }
+uint64_t vp_urem64(uint64_t a, uint64_t b) { uint64_t q, r; vp_divrem64(a, b, &q, &r); return r; }
 #else
 vp_u128 vp_mul64x64(uint64_t a, uint64_t b) { return (vp_u128)a * (vp_u128)b; }
 uint64_t vp_udiv64(uint64_t a, uint64_t b) { return a / b; }
